@@ -1,5 +1,4 @@
 import ErdosVerif.Lemmas.SimResidentSpec
-import ErdosVerif.Lemmas.SimLedgerRunDefs
 /-!
 Frame specifications (`Std.Do` Hoare triples): every function of the simulator model that does
 not write `s.pools` keeps any predicate `Q` of the pool array — when it returns and where it
